@@ -118,9 +118,10 @@ func init() {
 		Explanation: "The compile-time precedence decision is a finite table; it is extracted from the code by abstract evaluation and compared with the documented one. DTX(resolvePrec): for every combination of (rule has precedence, lookahead has precedence, order of the two groups, associativity) the result equals: missing -> conflict; higher wins; equal -> left reduces, right shifts, nonassoc is an error. " +
 			"GUARD(lastterminal): the fallback takes the last RHS symbol with 0 < sym < Terminals (markers and nonterminals excluded). DTX(ruleAction): shift x {reduce, error, shift, conflict} -> {rule, -3, -1, -1}; an existing conflict or nonassoc error keeps its action; an unresolved reduce/reduce keeps the earlier rule and reports both. " +
 			"MUSTPASS(nonassoc-rewrite): -3 becomes the error code -2 before a row is emitted. LOCKSTEP(precGroup): later declaration = larger group. DTX(assocmap): %left/%right/%nonassoc map to Left/Right/NonAssoc. CODEC(optimize): nonassoc errors survive defaultReduce (every pair of a lookahead row stores its cell; only sentinel cells take the default). ORDER(alternatives): compiler.or keeps the base nonterminal's rules before the rules of its extend clauses, so the \"earlier rule\" of a reduce/reduce default is the one written first. " +
-			"Not decided: that the chosen action is what the running parser does (C01), hasConflict bookkeeping across several rules on one terminal. DTX(hasConflict) as in C03: a terminal already decided by precedence still goes through precedence resolution for the next rule. SIGNATURE(lalr-cell) as in C06: under minimizeDFA the per-terminal entries of a lookahead state (nonassoc errors included) are part of the state's signature. PROPAGATE(unresolved) as in C07: an only partly decidable reduce/reduce conflict stays a reported conflict.",
-		Rules: []string{"ORDER(alternatives)", "DTX(resolvePrec)", "GUARD(lastterminal)", "DTX(ruleAction)", "MUSTPASS(nonassoc-rewrite)", "LOCKSTEP(precGroup)", "DTX(assocmap)", "CODEC(optimize)", "DTX(hasConflict)", "SIGNATURE(lalr-cell)", "PROPAGATE(unresolved)"},
+			"Not decided: that the chosen action is what the running parser does (C01), hasConflict bookkeeping across several rules on one terminal. DTX(hasConflict) as in C03: a terminal already decided by precedence still goes through precedence resolution for the next rule. SIGNATURE(lalr-cell) as in C06: under minimizeDFA the per-terminal entries of a lookahead state (nonassoc errors included) are part of the state's signature. PROPAGATE(unresolved) as in C07: an only partly decidable reduce/reduce conflict stays a reported conflict. DTX(ambiguity-add): ambiguity.add evaluated for all 5 x 4 pairs (stored resolution, new resolution): the first or an equal answer is kept, two different answers become conflict, a conflict stays one.",
+		Rules: []string{"ORDER(alternatives)", "DTX(resolvePrec)", "GUARD(lastterminal)", "DTX(ruleAction)", "MUSTPASS(nonassoc-rewrite)", "LOCKSTEP(precGroup)", "DTX(assocmap)", "CODEC(optimize)", "DTX(hasConflict)", "SIGNATURE(lalr-cell)", "PROPAGATE(unresolved)", "DTX(ambiguity-add)"},
 		Run: func(c *Ctx) {
+			ruleAMBIGADD(c)
 			ruleORORDER(c)
 			ruleRESOLVEPREC(c)
 			ruleHASCONFLICT(c)
@@ -135,9 +136,10 @@ func init() {
 		ID: "C03",
 		Explanation: "Decides the structural clauses of 'conflict reports are exact': GUARD(conflict-accounting): the shift/reduce counter grows by len(conflict.Next) exactly under !Resolved and CanShift, the reduce/reduce counter under !Resolved and !CanShift. DTX(reportConflicts): for all 16 combinations of (sr = %expect, rr = %expect-rr, includeResolved, verbose) the summary error at the grammar origin is raised iff a count differs; the counts are exported. " +
 			"GUARD(unionclone) + ALIAS/ESCAPE over lalr: lookahead sets kept in states never share storage with the scratch buffer that the next union overwrites. DTX(ruleAction): which resolution is recorded per conflict. DTX(lr0-shift): a state with a reduction that receives its first shift loses its 'reduce without lookahead' status on every path. MINMAX(update): the low-link updates of the SCC pass that orders the lookahead propagation (util/graph Tarjan) compare against the cell they update. " +
-			"Not decided: LR(0) closure, lookback/follow propagation, the LALR(1) sets themselves — algorithmic, out of reach for this technique. DTX(hasConflict): conflictBuilder.hasConflict is true exactly for an existing entry whose resolution is `conflict` (all 6 cells); an entry decided by precedence does not make the next rule on that terminal a conflict.",
-		Rules: []string{"GUARD(conflict-accounting)", "DTX(reportConflicts)", "DTX(lr0-shift)", "GUARD(unionclone)", "ALIAS", "ESCAPE", "DTX(ruleAction)", "MINMAX(update)", "SENTINEL(allTokensMarker)", "DTX(hasConflict)"},
+			"Not decided: LR(0) closure, lookback/follow propagation, the LALR(1) sets themselves — algorithmic, out of reach for this technique. DTX(hasConflict): conflictBuilder.hasConflict is true exactly for an existing entry whose resolution is `conflict` (all 6 cells); an entry decided by precedence does not make the next rule on that terminal a conflict. DTX(ambiguity-add) as in C04 (contradicting precedence answers for one terminal are counted and reported as a conflict).",
+		Rules: []string{"GUARD(conflict-accounting)", "DTX(reportConflicts)", "DTX(lr0-shift)", "GUARD(unionclone)", "ALIAS", "ESCAPE", "DTX(ruleAction)", "MINMAX(update)", "SENTINEL(allTokensMarker)", "DTX(hasConflict)", "DTX(ambiguity-add)"},
 		Run: func(c *Ctx) {
+			ruleAMBIGADD(c)
 			ruleMINMAX(c, "util/graph", "lalr", "util/container", "util/sparse")
 			ruleSENTINELIDX(c)
 			c.MinCount("MINMAX(update)", "util/graph.", 2)
@@ -199,9 +201,10 @@ func init() {
 		ID: "C10",
 		Explanation: "Decides structural necessary conditions of 'patterns denote their documented sets': INTERVAL(digit): hexval/octval, evaluated abstractly on a partition of the rune line, return exactly the digit value on digit ranges and -1 elsewhere. INTERVAL(accumulator): every digit accumulation loop in parseEscape has a constant trip count that fits 31 bits or a range check inside the loop (no int32 wrap-around). " +
 			"GUARD(fold): Unicode fold tables are appended only under opts.Fold. GUARD(invrange): a two-bound class range is inserted only after hi < lo was rejected. DTX(negation): \\p-negation = (letter is P) XOR (leading ^). LOOPSHAPE(fold-orbit): the SimpleFold orbit loop leaves only through its header. DTX(rune-fold): in bytes mode a rune above 0x7f is never folded (it must stay a single rune to become a byte literal). MUSTPASS(class-order): a bracket class is built as ranges, minus subtractions, then folded, then complemented. INPLACE(write-behind-read): the in-place range filters (charset.subtract/invert and the other out := r[:0] loops of lex and compiler) never append past the read cursor while sharing the input's array (finite abstraction of len(out)-i, comparisons between them decided exactly). LOCKSTEP(offset-column): a regexp error narrowed inside the pattern moves Offset and Column by the same amount. " +
-			"Not decided: the denotation of well-formed patterns in general (set algebra on ranges, quantifiers, parentheses). GLOBALS: packages compiler and lex keep no mutable package-level state (sync.Map and similar containers included), so what a pattern denotes cannot depend on patterns compiled earlier in the process under other options.",
-		Rules: []string{"INTERVAL(digit)", "INTERVAL(accumulator)", "GUARD(fold)", "GUARD(invrange)", "DTX(negation)", "LOOPSHAPE(fold-orbit)", "DTX(rune-fold)", "MUSTPASS(class-order)", "LOCKSTEP(offset-column)", "INPLACE(write-behind-read)", "GLOBALS"},
+			"Not decided: the denotation of well-formed patterns in general (set algebra on ranges, quantifiers, parentheses). GLOBALS: packages compiler and lex keep no mutable package-level state (sync.Map and similar containers included), so what a pattern denotes cannot depend on patterns compiled earlier in the process under other options. FIELDCOV(rebuild) as in C01: a struct rebuilt from another of the same type carries every field over (the CharsetOptions handed to named patterns keep Fold).",
+		Rules: []string{"INTERVAL(digit)", "INTERVAL(accumulator)", "GUARD(fold)", "GUARD(invrange)", "DTX(negation)", "LOOPSHAPE(fold-orbit)", "DTX(rune-fold)", "MUSTPASS(class-order)", "LOCKSTEP(offset-column)", "INPLACE(write-behind-read)", "GLOBALS", "FIELDCOV(rebuild)"},
 		Run: func(c *Ctx) {
+			ruleREBUILD(c, "syntax", "compiler", "grammar", "lalr")
 			ruleCLASSORDER(c)
 			ruleINPLACE(c, "lex", "compiler")
 			ruleOFFCOL(c, "compiler", "lex", "status")
@@ -438,9 +441,10 @@ func init() {
 	register(&Property{
 		ID: "C08",
 		Explanation: "Decides structural necessary conditions of 'runtime lookahead decisions pick the alternative whose predicates hold': TMPL(negation): in go_parser.go.tmpl every emitted copy of a decision list applies {{if .Predicate.Negated}}!{{end}} in both the cancellable and the plain variant (template tree analysis, so un-instantiated branches are covered). SIBLING(decision-list): in the committed js and test parsers the applyRule and lookaheadRule copies of each lookahead rule have the same tests, polarities and targets. " +
-			"SHIFTWIDTH: the memoization key widens before shifting (distinct predicates at one offset never share a cached answer). AGREE(memo-key): the key identifies the lookahead nonterminal by its entry state, which minimize never merges, not by its final state, which it does. DTX(pickLookahead): for every sequence of 1..4 alternatives over {requires the predicate, requires its negation, independent} the picked alternative is the unique positive one, else the unique negated one, else none. DTX(ruleAction): a lookahead rule meeting an existing resolution rule extends that rule (planner.addRule(existing, new)); plain rules are reported as conflicts. ERRFLOW: a lookahead's error is never dropped (C29). Not decided: the ordering pass of newLookaheadRule (a DFS over runtime data pinned by lalr.TestLookahead). TMPL(negation) also covers the TypeScript and C++ parser templates. ERRFLOW's check-first clause: a lookahead answer is not acted upon before its error was found to be nil.",
-		Rules: []string{"TMPL(negation)", "SIBLING(decision-list)", "SHIFTWIDTH", "AGREE(memo-key)", "DTX(pickLookahead)", "DTX(ruleAction)", "ERRFLOW"},
+			"SHIFTWIDTH: the memoization key widens before shifting (distinct predicates at one offset never share a cached answer). AGREE(memo-key): the key identifies the lookahead nonterminal by its entry state, which minimize never merges, not by its final state, which it does. DTX(pickLookahead): for every sequence of 1..4 alternatives over {requires the predicate, requires its negation, independent} the picked alternative is the unique positive one, else the unique negated one, else none. DTX(ruleAction): a lookahead rule meeting an existing resolution rule extends that rule (planner.addRule(existing, new)); plain rules are reported as conflicts. ERRFLOW: a lookahead's error is never dropped (C29). Not decided: the ordering pass of newLookaheadRule (a DFS over runtime data pinned by lalr.TestLookahead). TMPL(negation) also covers the TypeScript and C++ parser templates. ERRFLOW's check-first clause: a lookahead answer is not acted upon before its error was found to be nil. PERITEM(flag) as in C01: a flag that describes one item of a loop (the negation of one lookahead predicate in generateTables) is re-initialised per iteration.",
+		Rules: []string{"TMPL(negation)", "SIBLING(decision-list)", "SHIFTWIDTH", "AGREE(memo-key)", "DTX(pickLookahead)", "DTX(ruleAction)", "ERRFLOW", "PERITEM(flag)"},
 		Run: func(c *Ctx) {
+			rulePERITEM(c, "compiler", "syntax", "lalr", "grammar")
 			ruleRULEACTION(c)
 			rulePICKLOOKAHEAD(c)
 			ruleMEMOKEY(c)
@@ -532,9 +536,11 @@ func init() {
 	register(&Property{
 		ID: "C13",
 		Explanation: "Decides one structural necessary condition of 'desugaring preserves the language': DTX(expr-equal): Expand reuses an already extracted nonterminal for a sub-expression (lists, optionals, nested choices) when names match and (*Expr).Equal says the expressions are the same; the check evaluates Equal abstractly for every expression kind and requires that a difference in any component of the kind (symbol, arguments, every sub-expression including a list's separator, list flags, names, arrow flags, predicate, set index) makes it false and identical components make it true. " +
-			"LOOPSHAPE(marker-transparent): markers never hide symbols of a rule. Not decided: the expansion rules themselves (which productions a list/optional/choice turns into) — language equivalence of those is algorithmic and out of reach for this technique; two of the four independently seeded C13/C14 regressions are of that kind and are not detected (recorded in DESIGN.md). SIBLING(list-recursion): every rule Expand builds for a list places the recursive reference (and the separator) on the side the RightRecursive flag asks for; a placement that does not consult the flag is a violation. GUARD(drop-empty): where a Sub list is rebuilt, a child that became Empty is left out only under parent.Kind == Sequence (dropped from a Choice, an explicit %empty alternative disappears from the language). COPY(struct-slices): a value copy of an expression node (report.apply copies the arrow template) gets its own Sub list before it becomes reachable by or(), which appends to Sub in place. LOSTWRITE(range-copy): stores into fields of range copies of struct elements in syntax/ and compiler/ are observable. DTX(nullable) as in C15 (set(...) references are resolved over nullable symbols). GUARD(reuse-equal): extractNonterm reuses an existing helper nonterminal of the same provisional name only on the true edge of expr.Equal(existing value) (names are not injective; two different inline sets never share a nonterminal).",
-		Rules: []string{"DTX(expr-equal)", "SIBLING(list-recursion)", "LOOPSHAPE(marker-transparent)", "BOUNDARY(terminals)", "GUARD(drop-empty)", "COPY(struct-slices)", "LOSTWRITE(range-copy)", "DTX(nullable)", "GUARD(reuse-equal)"},
+			"LOOPSHAPE(marker-transparent): markers never hide symbols of a rule. Not decided: the expansion rules themselves (which productions a list/optional/choice turns into) — language equivalence of those is algorithmic and out of reach for this technique; two of the four independently seeded C13/C14 regressions are of that kind and are not detected (recorded in DESIGN.md). SIBLING(list-recursion): every rule Expand builds for a list places the recursive reference (and the separator) on the side the RightRecursive flag asks for; a placement that does not consult the flag is a violation. GUARD(drop-empty): where a Sub list is rebuilt, a child that became Empty is left out only under parent.Kind == Sequence (dropped from a Choice, an explicit %empty alternative disappears from the language). COPY(struct-slices): a value copy of an expression node (report.apply copies the arrow template) gets its own Sub list before it becomes reachable by or(), which appends to Sub in place. LOSTWRITE(range-copy): stores into fields of range copies of struct elements in syntax/ and compiler/ are observable. DTX(nullable) as in C15 (set(...) references are resolved over nullable symbols). GUARD(reuse-equal): extractNonterm reuses an existing helper nonterminal of the same provisional name only on the true edge of expr.Equal(existing value) (names are not injective; two different inline sets never share a nonterminal). GUARD(set-alias) and SHARED as in C15: a named set that is a plain alias of another slot is wrapped before it is stored, and token-set nodes shared between set expressions are renumbered once.",
+		Rules: []string{"DTX(expr-equal)", "SIBLING(list-recursion)", "LOOPSHAPE(marker-transparent)", "BOUNDARY(terminals)", "GUARD(drop-empty)", "COPY(struct-slices)", "LOSTWRITE(range-copy)", "DTX(nullable)", "GUARD(reuse-equal)", "GUARD(set-alias)", "SHARED"},
 		Run: func(c *Ctx) {
+			ruleSHARED(c)
+			ruleSETALIAS(c)
 			ruleEXPREQUAL(c)
 			ruleLISTRECURSION(c)
 			ruleMARKERLOOPS(c)
@@ -591,9 +597,10 @@ func init() {
 	register(&Property{
 		ID: "C27",
 		Explanation: "Decides structural necessary conditions of 'line diffs are correct and minimal' on util/diff: GUARD(equal-empty): equal texts return the empty diff in the entry block. DTX(hunk-sizes): in hunk.add, leftSize grows exactly for lines that are not added ('+') and rightSize for lines that are not removed ('-'), so the @@ header describes the hunk. LOCKSTEP(chunk-merge): merging chunks adds del, ins and eq each (the script keeps covering both texts). SIBLING(trace-mirror): the len(a)==1 and len(b)==1 base cases of the edit-script recursion are mirror images (a<->b, del<->ins). INPLACE(write-behind-read): the in-place chunk merge of lcs never writes ahead of its read cursor. LOCKSTEP(hunk-origin): hunk.leftLine is derived from the old-text cursor only and hunk.rightLine from the new-text cursor only, by the same expression (a cursor-free value only where nothing was inserted or deleted before). MAXSEL(furthest-reaching): in both searches of middle, x = v[k+1] is chosen only under v[k-1] < v[k+1] strictly, otherwise v[k-1]+1 - the kept point is the furthest reaching one, a necessary condition of minimality. ARITH(abbreviation): the marker of an abbreviated run reports len - (head + tail) lines, and a run is abbreviated only when longer than head + 1 + tail lines. " +
-			"Not decided: minimality of the script as a whole (Myers' middle snake), that unequal texts render a non-empty diff, that the hunks apply - numerical/round-trip properties of runtime data. Remark: a run of more than 14 inserted or deleted lines is abbreviated by design ('... N lines skipped ...'), so for such runs the clause 'hunks apply' cannot hold; the checks state conditions of the unabbreviated path and the consistency of the abbreviation. SINK(diff-result): a caller that returns a diff returns the LineDiff result on every path (\"\" only under equality of the two texts), and the result is never (part of) the format string of a printf-style call ('generate --diff' prints hunks that still apply).",
-		Rules: []string{"GUARD(equal-empty)", "DTX(hunk-sizes)", "LOCKSTEP(chunk-merge)", "SIBLING(trace-mirror)", "INPLACE(write-behind-read)", "LOCKSTEP(hunk-origin)", "MAXSEL(furthest-reaching)", "ARITH(abbreviation)", "SINK(diff-result)"},
+			"Not decided: minimality of the script as a whole (Myers' middle snake), that unequal texts render a non-empty diff, that the hunks apply - numerical/round-trip properties of runtime data. Remark: a run of more than 14 inserted or deleted lines is abbreviated by design ('... N lines skipped ...'), so for such runs the clause 'hunks apply' cannot hold; the checks state conditions of the unabbreviated path and the consistency of the abbreviation. SINK(diff-result): a caller that returns a diff returns the LineDiff result on every path (\"\" only under equality of the two texts), and the result is never (part of) the format string of a printf-style call ('generate --diff' prints hunks that still apply). PASSTHROUGH(diff-operands): in the non-test callers of diff.LineDiff (`textmapper generate --diff`, dump.Diff) each operand is the text the caller names - a parameter, a converted call result or a String() result, extended only by constant notes governed by a flag read that belongs to the same operand - so that the hunks shown apply to the first text.",
+		Rules: []string{"GUARD(equal-empty)", "DTX(hunk-sizes)", "LOCKSTEP(chunk-merge)", "SIBLING(trace-mirror)", "INPLACE(write-behind-read)", "LOCKSTEP(hunk-origin)", "MAXSEL(furthest-reaching)", "ARITH(abbreviation)", "SINK(diff-result)", "PASSTHROUGH(diff-operands)"},
 		Run: func(c *Ctx) {
+			ruleDIFFOPERANDS(c)
 			ruleDIFFEQUAL(c)
 			ruleHUNKSIZES(c)
 			ruleCHUNKMERGE(c)
